@@ -8,6 +8,8 @@ def run(rep, kf, tier, seed):
     run_models(rep, kf, tier, seed, "C14", config={"literal_enums": True}, tag="+literal_enums")
     # parser side: member table of an enum with ANY number of values (inductive contract)
     from props.common import run_bounded, discharge_parallel
+    import contracts.templates_a as ta
+    ta.union_fallthrough_obligation(rep, "C14")
     import contracts.dispatch as cdis
     cdis.discharge(rep, kf, "C14", tier, seed)
     import contracts.model_plumbing as cmp_
